@@ -179,6 +179,40 @@ func collectFacts(p *packages.Package, fd *ast.FuncDecl, name string, m map[stri
 			return true
 		})
 		boolFact(m, "packetConn_Close_closes_readCh", closes)
+	case "l4proxy.Handler.proxy":
+		proxyFacts(fd, m)
+	case "l4proxy.Handler.Handle":
+		// a deferred function that closes every element of upConns is installed before h.proxy is called
+		deferPos, proxyPos := -1, -1
+		for i, st := range fd.Body.List {
+			if ds, ok := st.(*ast.DeferStmt); ok {
+				if fl, ok := ds.Call.Fun.(*ast.FuncLit); ok && rangeClosesAll(fl.Body, "upConns") {
+					deferPos = i
+				}
+			}
+			if es, ok := st.(*ast.ExprStmt); ok {
+				if c, ok := es.X.(*ast.CallExpr); ok {
+					if se, ok := c.Fun.(*ast.SelectorExpr); ok && se.Sel.Name == "proxy" {
+						proxyPos = i
+					}
+				}
+			}
+		}
+		boolFact(m, "proxy_Handle_defers_close_of_all_upconns_before_proxy", deferPos >= 0 && proxyPos > deferPos)
+	case "l4proxy.Handler.dialPeers":
+		// on a dial / header error the connections opened so far are closed before returning
+		ok := false
+		ast.Inspect(fd.Body, func(n ast.Node) bool {
+			if is, isIf := n.(*ast.IfStmt); isIf && containsIdent(is.Cond, "err") && rangeClosesAll(is.Body, "upConns") {
+				for _, st := range is.Body.List {
+					if _, isRet := st.(*ast.ReturnStmt); isRet {
+						ok = true
+					}
+				}
+			}
+			return true
+		})
+		boolFact(m, "proxy_dialPeers_closes_opened_conns_on_error", ok)
 	case "layer4.packetConn.SetReadDeadline":
 		// the deadline must be stored with sub-second resolution
 		unix, nano := false, false
@@ -250,4 +284,237 @@ func collectFacts(p *packages.Package, fd *ast.FuncDecl, name string, m map[stri
 	}
 	accessRows = uniq
 	m["accessTable"] = "List (String × String × String) := [\n  " + strings.Join(accessRows, ",\n  ") + "]"
+}
+
+// rangeClosesAll: the block contains `for _, x := range <name> { ... x.Close() ... }`
+func rangeClosesAll(b *ast.BlockStmt, name string) bool {
+	found := false
+	ast.Inspect(b, func(n ast.Node) bool {
+		rs, ok := n.(*ast.RangeStmt)
+		if !ok {
+			return true
+		}
+		if id, ok := rs.X.(*ast.Ident); !ok || id.Name != name {
+			return true
+		}
+		v, ok := rs.Value.(*ast.Ident)
+		if !ok {
+			return true
+		}
+		ast.Inspect(rs.Body, func(y ast.Node) bool {
+			if c, ok := y.(*ast.CallExpr); ok {
+				if se, ok := c.Fun.(*ast.SelectorExpr); ok && se.Sel.Name == "Close" {
+					if id, ok := se.X.(*ast.Ident); ok && id.Name == v.Name {
+						found = true
+					}
+				}
+			}
+			return true
+		})
+		return true
+	})
+	return found
+}
+
+func callName(e ast.Expr) (recv, name string) {
+	c, ok := e.(*ast.CallExpr)
+	if !ok {
+		return "", ""
+	}
+	switch f := c.Fun.(type) {
+	case *ast.Ident:
+		return "", f.Name
+	case *ast.SelectorExpr:
+		if id, ok := f.X.(*ast.Ident); ok {
+			return id.Name, f.Sel.Name
+		}
+		return "?", f.Sel.Name
+	}
+	return "", ""
+}
+
+// proxyFacts extracts the statement-level protocol of Handler.proxy that L4/Relay.lean encodes.
+func proxyFacts(fd *ast.FuncDecl, m map[string]string) {
+	sigCap := -1         // capacity of the channel the pump signals on
+	sigName := ""        // its name
+	teeAll := false      // for range upConns { downTee = io.TeeReader(downTee, up) }
+	copyPerUp := false   // for range upConns { wg.Add(1); go func(){ defer wg.Done(); io.Copy(down, up) }() }
+	pumpOrder := false   // pump goroutine: io.Copy(io.Discard, downTee); sig <- ...; range upConns { CloseWrite | Close }
+	pumpCopiesTee := false
+	mainOrder := false // wg.Wait(); CloseWrite on down.Conn; <-sig  (in this order, at top level)
+	// channel
+	ast.Inspect(fd.Body, func(n ast.Node) bool {
+		as, ok := n.(*ast.AssignStmt)
+		if !ok || len(as.Lhs) != 1 || len(as.Rhs) != 1 {
+			return true
+		}
+		c, ok := as.Rhs[0].(*ast.CallExpr)
+		if !ok {
+			return true
+		}
+		if id, ok := c.Fun.(*ast.Ident); ok && id.Name == "make" && len(c.Args) >= 1 {
+			if _, isChan := c.Args[0].(*ast.ChanType); isChan {
+				if l, ok := as.Lhs[0].(*ast.Ident); ok {
+					sigName = l.Name
+					sigCap = 0
+					if len(c.Args) == 2 {
+						if bl, ok := c.Args[1].(*ast.BasicLit); ok {
+							fmt.Sscanf(bl.Value, "%d", &sigCap)
+						} else {
+							sigCap = -1
+						}
+					}
+				}
+			}
+		}
+		return true
+	})
+	isSend := func(st ast.Stmt) bool {
+		s, ok := st.(*ast.SendStmt)
+		if !ok {
+			return false
+		}
+		id, ok := s.Chan.(*ast.Ident)
+		return ok && id.Name == sigName
+	}
+	closesWriteAll := func(st ast.Stmt) bool {
+		rs, ok := st.(*ast.RangeStmt)
+		if !ok {
+			return false
+		}
+		if id, ok := rs.X.(*ast.Ident); !ok || id.Name != "upConns" {
+			return false
+		}
+		cw, cl := false, false
+		ast.Inspect(rs.Body, func(y ast.Node) bool {
+			if c, ok := y.(*ast.CallExpr); ok {
+				if se, ok := c.Fun.(*ast.SelectorExpr); ok {
+					if se.Sel.Name == "CloseWrite" {
+						cw = true
+					}
+					if se.Sel.Name == "Close" {
+						cl = true
+					}
+				}
+			}
+			return true
+		})
+		return cw && cl
+	}
+	for _, st := range fd.Body.List {
+		switch t := st.(type) {
+		case *ast.RangeStmt:
+			if id, ok := t.X.(*ast.Ident); ok && id.Name == "upConns" {
+				for _, b := range t.Body.List {
+					if as, ok := b.(*ast.AssignStmt); ok && len(as.Rhs) == 1 {
+						if r, n := callName(as.Rhs[0]); r == "io" && n == "TeeReader" {
+							c := as.Rhs[0].(*ast.CallExpr)
+							if len(c.Args) == 2 && containsIdent(c.Args[0], "downTee") && containsIdent(as.Lhs[0], "downTee") {
+								if v, ok := t.Value.(*ast.Ident); ok && containsIdent(c.Args[1], v.Name) {
+									teeAll = true
+								}
+							}
+						}
+					}
+				}
+				// copy goroutine
+				add, goCopy := false, false
+				for _, b := range t.Body.List {
+					if es, ok := b.(*ast.ExprStmt); ok {
+						if r, n := callName(es.X); r == "wg" && n == "Add" {
+							add = true
+						}
+					}
+					if gs, ok := b.(*ast.GoStmt); ok {
+						if fl, ok := gs.Call.Fun.(*ast.FuncLit); ok {
+							done, cp := false, false
+							ast.Inspect(fl.Body, func(y ast.Node) bool {
+								if ds, ok := y.(*ast.DeferStmt); ok {
+									if r, n := callName(ds.Call); r == "wg" && n == "Done" {
+										done = true
+									}
+								}
+								if c, ok := y.(*ast.CallExpr); ok {
+									if r, n := callName(c); r == "io" && n == "Copy" && len(c.Args) == 2 && containsIdent(c.Args[0], "down") && containsIdent(c.Args[1], "up") {
+										cp = true
+									}
+								}
+								return true
+							})
+							goCopy = done && cp
+						}
+					}
+				}
+				if add && goCopy {
+					copyPerUp = true
+				}
+			}
+		case *ast.GoStmt:
+			fl, ok := t.Call.Fun.(*ast.FuncLit)
+			if !ok {
+				continue
+			}
+			stage := 0
+			for _, b := range fl.Body.List {
+				switch stage {
+				case 0:
+					ast.Inspect(b, func(y ast.Node) bool {
+						if c, ok := y.(*ast.CallExpr); ok {
+							if r, n := callName(c); r == "io" && n == "Copy" && len(c.Args) == 2 && containsIdent(c.Args[1], "downTee") {
+								pumpCopiesTee = true
+								stage = 1
+							}
+						}
+						return true
+					})
+				case 1:
+					if isSend(b) {
+						stage = 2
+					} else if closesWriteAll(b) {
+						stage = 9 // half-close before the signal: a different protocol
+					}
+				case 2:
+					if closesWriteAll(b) {
+						stage = 3
+					}
+				}
+			}
+			if stage == 3 {
+				pumpOrder = true
+			}
+		}
+	}
+	// main: order of wg.Wait(), CloseWrite on down, receive
+	stage := 0
+	for _, st := range fd.Body.List {
+		switch stage {
+		case 0:
+			if es, ok := st.(*ast.ExprStmt); ok {
+				if r, n := callName(es.X); r == "wg" && n == "Wait" {
+					stage = 1
+				}
+			}
+		case 1:
+			if is, ok := st.(*ast.IfStmt); ok && containsIdent(is, "CloseWrite") && containsIdent(is, "down") {
+				stage = 2
+			}
+		case 2:
+			if es, ok := st.(*ast.ExprStmt); ok {
+				if ue, ok := es.X.(*ast.UnaryExpr); ok && ue.Op.String() == "<-" {
+					if id, ok := ue.X.(*ast.Ident); ok && id.Name == sigName {
+						stage = 3
+					}
+				}
+			}
+		}
+	}
+	mainOrder = stage == 3
+	if sigCap < 0 {
+		sigCap = 0
+	}
+	m["proxy_signal_chan_cap"] = fmt.Sprintf("Nat := %d", sigCap)
+	boolFact(m, "proxy_tee_chain_over_all_upconns", teeAll)
+	boolFact(m, "proxy_copy_goroutine_per_upconn_counted_in_wg", copyPerUp)
+	boolFact(m, "proxy_pump_copies_tee_then_signals_then_closes_write_all", pumpOrder && pumpCopiesTee)
+	boolFact(m, "proxy_main_waits_copies_then_closewrite_down_then_receives", mainOrder)
 }
